@@ -364,7 +364,7 @@ def long_source_cases(chk):
     """files of several hundred lines (what a traceback frame deep in a module shows): ranges inside, straddling the end and wholly
     beyond it, far from line 1 - code that treats "a range deep in a big file" specially lives here"""
     out = []
-    for n in chk.pick([530, 640], [530, 640, 1100, 2100]):
+    for n in chk.pick([530, 640], [530, 640, 1100]):
         for final_nl in (False, True):
             src = "\n".join("v%d = %d" % (i, i) for i in range(1, n + 1)) + ("\n" if final_nl else "")
             for lx in ("python", "text"):
